@@ -59,4 +59,11 @@ PROPS = {
         'decided': 'one clause only: the per-thread integer-conversion mode is restored by the RAII guard on every exit path (success, early error return), so an earlier compilation in another dialect or a failed one cannot leak its mode',
         'not_covered': ['independence from the gensym counter ARGNAME_CTR (relational, whole compiler)', 'independence from HashMap iteration order / hash seeds', 'threads', 'byte-identical output as such'],
     },
+    'C18': {
+        'units': ['deps'],
+        'e3_always': ['deps'],
+        'e3': ['deps'],
+        'decided': 'read_new_file: a real (non pseudo) file is taken from the FIRST search directory in which it is readable, the reported name is that path, and an error means no directory has it (file system uninterpreted)',
+        'not_covered': ['recurse_dependencies / process_pp_form reaching every include and embed-file form: bounded stand-in only (E3 on a temporary directory tree: include, embed-file bin/hex, shadowed search path; cl21 and cl23)', 'gather_dependencies filter', 'pseudo-file branch of read_new_file'],
+    },
 }
